@@ -120,10 +120,13 @@ pub fn valid_src(big: bool) -> BoxedStrategy<Src> {
     let c = (recipe(seg, 4), config_w15(), schedule(4)).prop_map(|(data, cfg, sched)| Src::Crate { data, cfg, sched });
     let z = (recipe(seg, 4), -1i8..=9, 9u8..=15, 1u8..=9, 0u8..=4, any::<bool>(), proptest::collection::vec((any::<u32>(), 0u8..4), 0..3)).prop_map(|(data, level, wbits, mem, strategy, zlib, flushes)| Src::Zlib { data, level, wbits, mem, strategy, zlib, flushes });
     let f = (0u8..4).prop_map(Src::File);
-    if zlibffi::available() {
-        prop_oneof![12 => g, 4 => c, 3 => z, 1 => f].boxed()
+    // big streams only: a final match that crosses a multiple of 32 KiB
+    let we = window_edge_input().prop_map(|a| a.src);
+    let base = if zlibffi::available() { prop_oneof![12 => g, 4 => c, 3 => z, 1 => f].boxed() } else { prop_oneof![12 => g, 6 => c, 1 => f].boxed() };
+    if big {
+        prop_oneof![20 => base, 1 => we].boxed()
     } else {
-        prop_oneof![12 => g, 6 => c, 1 => f].boxed()
+        base
     }
 }
 
@@ -329,6 +332,29 @@ pub fn any_input() -> BoxedStrategy<AnyInput> {
 /// streams whose plaintext exceeds 32 KiB (so that decoder windows wrap)
 pub fn big_output_input() -> BoxedStrategy<AnyInput> {
     gs::stream(3, 300, 40000, None, 19).prop_map(|r| AnyInput { src: Src::Grammar(r), muts: vec![] }).boxed()
+}
+
+/// valid streams whose *last* token is a match that carries the output across a multiple of 32 KiB
+/// (the streaming wrapper's window end): when the window fills, all input has already been consumed
+pub fn window_edge_input() -> BoxedStrategy<AnyInput> {
+    (1u32..=3, 1u32..=257, any::<u64>(), any::<u16>(), proptest::option::of((7u8..=7, 0u8..=3)), 0u32..=3)
+        .prop_map(|(k, j, seed, dsel, zlib, tail_lits)| {
+            use crate::oracle::streamgen::{Block, Bytes, GTok, StreamRecipe};
+            let total = k * 32768 - j - tail_lits.min(j.saturating_sub(1));
+            let mut blocks = Vec::new();
+            let mut left = total;
+            while left > 0 {
+                let n = left.min(60_000);
+                blocks.push(Block::Stored { data: Bytes::Rand { n, seed: seed ^ left as u64 }, pad: 0 });
+                left -= n;
+            }
+            // a few literals, then one match of at least j+1 bytes: it starts before the window end and ends after it
+            let mut toks: Vec<GTok> = (0..tail_lits.min(j.saturating_sub(1))).map(|i| GTok::Lit(i as u8)).collect();
+            toks.push(GTok::Match { len: (j + 1).clamp(3, 258) as u16, dsel, alt258: false });
+            blocks.push(Block::Fixed { toks });
+            AnyInput { src: Src::Grammar(StreamRecipe { zlib, blocks, directive: None }), muts: vec![] }
+        })
+        .boxed()
 }
 
 /// raw streams with a back-reference that reaches before the start of the output (accepted by a
